@@ -268,6 +268,10 @@ def classify(cfg, history, exp, got):
             last = 'module-namespace'
         elif s[0] in ('bset', 'bdel') and s[1] == n:
             last = 'builtins-module'
+    if name_class(n) == 'builtin-never-assigned-in-module':
+        # one mechanism whatever the read form: the name is bound to the builtin when the module is compiled
+        return 'builtin-never-assigned-in-module:bound-at-compile-time:cache_builtins=%s:last-change=%s' % (
+            cfg['cache_builtins'], last)
     e, g = el[idx], gl[idx]
     es, gs = repr(e), repr(g)
 
